@@ -176,12 +176,20 @@ def sql_programs(rng, tier):
                         continue          # multi-line expression inside an indented block: skip
                     body.append(place(tpl, e))
                 full.append(prog("\n".join(body), ["B608"]))
+    # long statements: the keyword that makes the text look like SQL lies thousands of characters into the literal
+    cols = ", ".join("zz_col_%03d" % i for i in range(260))
+    longs = [prog("zz_q = 'SELECT %s FROM zz_t WHERE zz_a = %%s' %% zz_x\ncursor.execute('SELECT %s FROM zz_t WHERE zz_a = ' + zz_x)\n" % (cols, cols), ["B608"]),
+             prog("zz_q = 'INSERT INTO zz_t (%s) VALUES (%%s)' %% zz_x\n" % cols, ["B608"]),
+             prog("zz_q = '-- %s\\nDELETE FROM zz_t WHERE zz_a = {}'.format(zz_x)\n" % ("x" * 2100), ["B608"])]
+    for lp in longs:
+        lp["keep"] = True
+        lp["no_model"] = True         # the regex model needs minutes per kilobyte: these are for the statement-level oracle
     if tier == "quick":
         # every construction with the first text in every placement, then a sample of the rest
         n_c = len(sql_constructions("a", "b"))
         per_text = n_c * len(chunks(SQL_PLACEMENTS, 8))
-        return full[:per_text] + pick(rng, full[per_text:], 260)
-    return full
+        return longs + full[:per_text] + pick(rng, full[per_text:], 260)
+    return longs + full
 
 
 # ---------------------------------------------------------------------------------------------------
